@@ -12,6 +12,7 @@ pub mod c08;
 pub mod c09;
 pub mod c10;
 pub mod c11;
+pub mod c12;
 pub mod c13;
 pub mod c14;
 pub mod c15;
@@ -29,6 +30,7 @@ pub fn lookup(id: &str) -> Option<(&'static str, fn(&mut Ctx))> {
         "C09" => ("C09", c09::run as fn(&mut Ctx)),
         "C10" => ("C10", c10::run as fn(&mut Ctx)),
         "C11" => ("C11", c11::run as fn(&mut Ctx)),
+        "C12" => ("C12", c12::run as fn(&mut Ctx)),
         "C13" => ("C13", c13::run as fn(&mut Ctx)),
         "C14" => ("C14", c14::run as fn(&mut Ctx)),
         "C15" => ("C15", c15::run as fn(&mut Ctx)),
